@@ -467,6 +467,7 @@ def _sh(name, sk, sym, tier, vals=None, eps=None, variant=None, den=1, engine=No
     d = dict(name=name, fn="h_roundtrip", kwargs=kw, budget=100 if tier == "quick" else 1500, per_path=60)
     if engine:
         d["engine"] = engine
+        d["budget"] = 3 * d["budget"]  # the direct engine's budget is wall-clock time
     return d
 
 
@@ -506,7 +507,7 @@ def shards(tier, seed):
         out.append(_sh("same2-noeps-d0s1", "same2", dict(d0=[0, D], s1=[0, S]), tier))
         out.append(_sh("timed-s0d0s1", "timed", dict(s0=[3, 13], d0=[0, 9], s1=[10, 25]), tier, eps=E))
         out.append(_sh("timed-s1d1", "timed", dict(s1=[8, 26], d1=[0, 12]), tier, eps=E))
-        out.append(_sh("params-01", "params", dict(s0=[0, 6], d0=[1, 6], s1=[0, 6], d1=[1, 6]), tier, eps=E))
+        out.append(_sh("params-01", "params", dict(s0=[0, 5], d0=[1, 4], s1=[0, 5], d1=[1, 4]), tier, eps=E))
         out.append(_sh("params-2", "params", dict(d0=[1, 6], s2=[0, 8], d2=[1, 6]), tier, eps=E))
         out.append(_sh("three-01", "three", dict(d0=[2, 14], s1=[0, 10], d1=[1, 8]), tier, eps=E))
         out.append(_sh("three-12", "three", dict(s1=[0, 6], s2=[2, 14], d2=[1, 6]), tier, eps=E))
@@ -527,8 +528,8 @@ def shards(tier, seed):
     out.append(_sh("chain-den4-pool", "chain", dict(s1=[0, 9], d1=[0, 9]), tier, den=4, engine="direct"))
     out.append(_sh("interm-den4-pool", "interm", dict(s1=[0, 10], d0=[4, 10]), tier, den=4, engine="direct"))
     out.append(_sh("chain-open-noeps-den4-pool", "chain", dict(s1=[0, 9], d1=[0, 9]), tier, den=4, variant="open", engine="direct"))
-    out.append(dict(name="env-nonglobal", fn="h_env", kwargs=dict(sk="chain", use_global=False), budget=60, engine="direct"))
-    out.append(dict(name="env-global", fn="h_env", kwargs=dict(sk="chain", use_global=True), budget=60, engine="direct"))
+    out.append(dict(name="env-nonglobal", fn="h_env", kwargs=dict(sk="chain", use_global=False), budget=300, engine="direct"))
+    out.append(dict(name="env-global", fn="h_env", kwargs=dict(sk="chain", use_global=True), budget=300, engine="direct"))
     return out
 
 
